@@ -26,6 +26,12 @@ def run(report, tier):
                         calls=[("imap_unordered", "list", 2, 1)]), b + 1, 0, None))
     plan.append((Config("U6", kind="factory", quota=1, workers=2, until_all_ready="mid",
                         calls=[("imap", "list", 2, 1)]), b, 0, None))
+    # until_all_ready() on a pool with a join_timeout whose timers may expire early: it must still wait for begin()
+    plan.append((Config("U7", kind="functor", workers=2, join_timeout=1, until_all_ready=True, calls=[("imap", "list", 2, 1)]),
+                 b, 1, None))
+    # an integer work-queue bound smaller than the number of workers: the stop tokens of __exit__ do not fit at once
+    plan.append((Config("WQ1", kind="functor", workers=2, wq=1, calls=[("imap", "list", 2, 1)]), b, 0, None))
+    plan.append((Config("WQ1f", kind="factory", quota=2, workers=3, wq=1, calls=[("imap_unordered", "list", 2, 1)]), b, 0, None))
     # faults: begin() raises in worker w; the functor raises at the j-th item
     for w in (0, 1):
         plan.append((Config("FB%d" % w, workers=2, until_all_ready=False, fault=("begin", w), family="FB",
